@@ -121,7 +121,7 @@ def run(ctx):
                         ctx.report("C11-arity", "%s->apply:%s/%d" % (n, f.name, lead), "%s applies %s to at least %d arguments; it accepts %d" % (
                             n, f.name, lead, len(fs[0])), GR)
     if n_calls < 40:
-        ctx.report("C11-arity", "floor", "only %d resolvable calls found in base.sld" % n_calls, GR)
+        ctx.undecided("C11-arity", "floor", "only %d resolvable calls found in base.sld" % n_calls, GR)
 
     # ------------------------------------------------------------------ C11-tables
     ctx.rule("C11-tables", "every list procedure of base.sld named in the property, evaluated by abstract interpretation of its Scheme "
@@ -255,7 +255,10 @@ def run(ctx):
             good = bool(sf) and sf[0] is A and sf[1] is B and r["fixed"] == 2
             ctx.inst("C11-native", "cons", {"pair_is_(first,second)": bool(good)})
             ctx.oblige(bool(good))
-            if not good:
+            if not good and r["fixed"] == 2 and (not sf or any(x is absint.UNKNOWN for x in sf)):
+                # the components of the pair built are not known (a construct on the way without a model): nothing wrong was seen
+                ctx.undecided("C11-native", "cons/order", "cannot follow cons to the pair it builds ((cons A B) yields %r)" % (res,), where_of(f))
+            elif not good:
                 ctx.report("C11-native", "cons/order", "(cons A B) yields %r, expected the pair (A . B)" % (res,), where_of(f))
         except (absint.Stuck, absint.Loop) as e:
             ctx.undecided("C11-native", "cons", "cannot follow cons (%s)" % e, where_of(f))
@@ -534,4 +537,4 @@ def structural(ctx, mf, lib, info, GR):
             if nm == "null?" and not (fm and len(fm[0]) == 1 and repr(body[0]) in ("(eqv? %s (quote ()))" % fm[0][0], "(eq? %s (quote ()))" % fm[0][0])):
                 ctx.report("C11-structural", "null?/definition", "null? is %s, expected a comparison of its argument with '()" % repr(body[0]), GR)
     if n < 10:
-        ctx.report("C11-structural", "floor", "only %d structural procedures analysed" % n, GR)
+        ctx.undecided("C11-structural", "floor", "only %d structural procedures analysed" % n, GR)
